@@ -30,6 +30,7 @@ TOY = [
     ('pollers', [], 3, None),
     ('cycle', [], 2, r'non-progress cycle'),   # retry loop without a yield that can never succeed
     ('rawspin', [], 2, None),                  # the same state recurrence while the thread that ends it can still run
+    ('midpost', [], 3, None),                  # a foreign write in the middle of an iteration: the iteration never parks
     ('stalepost', [], 3, None),            # an iteration that slept in the kernel is never parked as a no-op spin
 ]
 FAIRNESS = [   # (family, program, P, E): must finish with no violation and no horizon hit
